@@ -41,9 +41,33 @@ class CountingArray(numpy.ndarray):
         return super().__getitem__(item)
 
 
+_PROXIES = {}
+
+
 def counted(accessor, budget):
-    """Return (view, counter): a CountingArray view of ``accessor`` (data shared, never copied back)."""
-    view = numpy.array(accessor, copy=True).view(CountingArray)
+    """Return (view, counter): a CountingArray with the accessor's content and memory layout.
+
+    One long-lived proxy object is kept per (shape, dtype, strides) and refilled in place, so that consecutive calls
+    pass the same array object with different contents (see gens.pooled)."""
+    import os
+    key = (accessor.shape, accessor.dtype.str, accessor.strides)
+    view = None if os.environ.get("VERIF_NO_POOL") else _PROXIES.get(key)
+    if view is None:
+        if accessor.flags.c_contiguous:
+            view = numpy.array(accessor, copy=True).view(CountingArray)
+        elif accessor.flags.f_contiguous:
+            view = numpy.asfortranarray(accessor.copy(order="F")).view(CountingArray)
+        else:  # strided or offset view: rebuild the same view over a private copy of the base buffer
+            import copy as _copy
+            base = accessor.base if accessor.base is not None else accessor
+            holder = _copy.deepcopy(base)
+            offset = (accessor.__array_interface__["data"][0] - base.__array_interface__["data"][0])
+            view = numpy.ndarray(accessor.shape, dtype=accessor.dtype, buffer=holder.data, offset=offset,
+                                 strides=accessor.strides).view(CountingArray)
+        _PROXIES[key] = view
+    else:
+        view._counter = None
+        numpy.copyto(view, accessor)
     counter = _Counter(budget)
     view._counter = counter
     return view, counter
